@@ -601,7 +601,8 @@ def stepLine (a : CaseAcc) (line : String) : CaseAcc × List String :=
   | "e" :: i :: _ =>
     ({ a with enodes := { idx := i.toNat?.getD 0, origin := fieldNat toks "origin", rep := fieldNat toks "rep",
                           bef := fieldNat toks "bef", aft := fieldNat toks "aft",
-                          nonFinal := fieldNat toks "nf" == 1 } :: a.enodes }, [])
+                          nonFinal := fieldNat toks "nf" == 1, gen := fieldNat toks "gen" == 1,
+                          inf := fieldNat toks "inf" == 1 } :: a.enodes }, [])
   | "dump" :: stage :: _ =>
     if stage == "S7" then ({ a with inS7 := true, stage := stage, flines := [], vcount := fieldNat toks "vcount" }, [])
     else if stage == "S3" then ({ a with inS7 := false, stage := stage, s3 := [] }, [])
